@@ -76,7 +76,7 @@ def runHist (s : State) (sched : List Nat) : State := sched.foldl stepHist s
 def inFlight (s : State) (d : Dir) : Nat :=
   (s.threads.filter (fun t => t.dir = d ∧ (t.pc = .checked ∨ t.pc = .handshaking))).length
 
-def inFlightIp (s : State) (ip : Nat) : Nat :=
+def inFlightIp (s : State) (ip : Ip) : Nat :=
   (s.threads.filter (fun t => t.dir = .inb ∧ t.ip = ip ∧ (t.pc = .checked ∨ t.pc = .handshaking))).length
 
 /-- no two attempts of one direction are between check and save at the same time -/
